@@ -202,7 +202,7 @@ ROUND7 = {
  "C05": ("no-case-predicate rule for the tokenizer", " R05.7: the tokenizer folds case (ToLower) and never tests it (IsUpper/IsLower/IsTitle). Shared R03.14."),
  "C06": ("both-results-used rule and offset-dependence rule for the line stringifier", " R06.14: the notice match the line stringifier returns is used at every call. R06.15: the position given to the word clean-up includes the line offset."),
  "C08": ("decoder-only access rule for the read buffer", " R08.9: no byte of the read buffer is fetched past the rune decoder."),
- "C10": ("nested same-list loop rule with input-governed length", " R10.9: a loop over a list nested in a loop over the same list, where the list holds an entry per notice line of the input (known finding D49). Shared R03.11, R08.1."),
+ "C10": ("nested same-list loop rule with input-governed length", " R10.9: a loop over a list nested in a loop over the same list, where the list holds an entry per notice line of the input (D49, repaired). Shared R03.11, R08.1."),
  "C11": ("unconditional case folding behind the first rune", " R11.12: a rune behind the first one of a word is lower-cased whether or not the text is being normalised. Shared R08.4/R08.5/R08.8. R11.5/R11.9/R11.11 are decided over the write sites of Normalize and of the helpers it calls."),
  "C13": ("injectivity lint for built map keys, dominating-fact rule between exact scan and token search, no-transformation rule for the normalised text", " R13.10: no map key is built from run-time parts that run together. R13.11: the token search runs only where the exact scan found nothing. R13.12: the normalised text is handed on as it is."),
  "C14": ("no package-level channel in the concurrent region; channel cells in the effect engine", " R14.11: no spawned goroutine sends to or receives from a package-level channel. The effect engine summarises a channel like the elements of a slice."),
